@@ -51,7 +51,11 @@ def apply_mutant(m: dict, dst_repo: Path) -> str | None:
 def run_one(m: dict) -> dict:
     import time
     t0 = time.time()
-    r = _run_one(m)
+    try:
+        r = _run_one(m)
+    except subprocess.TimeoutExpired:
+        # a mutant on which the analysis does not finish in time is reported, it does not abort the whole run
+        r = {"id": m["id"], "status": "MISS", "rc": "timeout", "tail": "the check did not finish within the selftest time limit"}
     r["secs"] = round(time.time() - t0, 1)
     return r
 
@@ -72,7 +76,7 @@ def _run_one(m: dict) -> dict:
             rcs, outs = [], []
             for i in range(1, 21):
                 r = subprocess.run([sys.executable, "-m", f"checks.c{i:02d}", "--no-selftest"], cwd=VERIF, env=env,
-                                   capture_output=True, text=True, timeout=600)
+                                   capture_output=True, text=True, timeout=int(os.environ.get('VERIF_SELFTEST_TIMEOUT', '900')))
                 if r.returncode != 0 or "VIOLATION" in r.stdout:
                     rcs.append(r.returncode)
                     outs.append((r.stdout + r.stderr)[-700:])
@@ -80,7 +84,7 @@ def _run_one(m: dict) -> dict:
             return {"id": m["id"], "status": "ok" if ok else "MISS", "rc": rcs, "tail": "\n".join(outs)}
         mod = f"checks.{m['property'].lower()}"
         r = subprocess.run([sys.executable, "-m", mod, "--no-selftest"], cwd=VERIF, env=env,
-                           capture_output=True, text=True, timeout=600)
+                           capture_output=True, text=True, timeout=int(os.environ.get('VERIF_SELFTEST_TIMEOUT', '900')))
         out = r.stdout + r.stderr
         expect_fire = m.get("expect", "fire") == "fire"
         if expect_fire:
